@@ -495,3 +495,29 @@ func badDecodeShared(raws []json.RawMessage) ([]item, error) {
 	}
 	return out, nil
 }
+
+// ---- element pointers across append
+
+type cursor struct{ next int }
+
+// goodCursorRetaken takes the element pointer again after the append.
+func goodCursorRetaken(n int) int {
+	stack := make([]cursor, 1, 2)
+	for len(stack) < n {
+		stack = append(stack, cursor{})
+		cur := &stack[len(stack)-1]
+		cur.next++
+	}
+	return stack[0].next
+}
+
+// badCursorStale advances a cursor through a pointer taken before the append.
+func badCursorStale(n int) int {
+	stack := make([]cursor, 1, 2)
+	for len(stack) < n {
+		cur := &stack[len(stack)-1]
+		stack = append(stack, cursor{})
+		cur.next++
+	}
+	return stack[0].next
+}
